@@ -127,8 +127,19 @@ def c04(d):
       if clause in ("scale_ls", "scale_group") and len(shape) > 1 and not ternary and alpha == "auto":
         axes = _group_axes(len(shape), kw.get("scale_axis"))
         exp_code = np.where(t >= 0, 1.0, 0.0 if use_01 else -1.0)
-        qx = np.mean(t.astype(np.float64) * exp_code, axis=axes, keepdims=True)
-        qq = np.mean(exp_code * exp_code, axis=axes, keepdims=True)
+        eps_ = kw.get("elements_per_scale")
+        if eps_:
+          # one scale per block of eps consecutive elements along scale_axis, repeated back over the block
+          a = int(kw["scale_axis"])
+          view = tuple(shape[:a]) + (shape[a] // eps_, eps_) + tuple(shape[a + 1:])
+          vaxes = tuple(i for i in range(len(view)) if i != a)
+          qx = np.mean((t.astype(np.float64) * exp_code).reshape(view), axis=vaxes, keepdims=True)
+          qq = np.mean((exp_code * exp_code).reshape(view), axis=vaxes, keepdims=True)
+          back = tuple(1 if i != a else shape[a] // eps_ for i in range(len(shape)))
+          qx, qq = np.repeat(qx.reshape(back), eps_, axis=a), np.repeat(qq.reshape(back), eps_, axis=a)
+        else:
+          qx = np.mean(t.astype(np.float64) * exp_code, axis=axes, keepdims=True)
+          qq = np.mean(exp_code * exp_code, axis=axes, keepdims=True)
         want = qx / (qq + 1e-7)
         if scale.shape != want.shape or not np.allclose(scale, want, rtol=1e-4, atol=1e-7):
           bad = {"scale_shape": list(scale.shape), "expected_shape": list(want.shape),
@@ -151,6 +162,8 @@ def c05(d):
   kw = {"alpha": rp["kwargs"]["alpha"]}
   if rp["kwargs"].get("scale_axis") is not None:
     kw["scale_axis"] = int(rp["kwargs"]["scale_axis"])
+  if rp["kwargs"].get("elements_per_scale") is not None:
+    kw["elements_per_scale"] = int(rp["kwargs"]["elements_per_scale"])
   bk = rp.get("bounds_po2")
   if bk in (True, "both", "min"):
     kw["min_po2_exponent"] = int(w.get("min_e", -2))
@@ -206,6 +219,8 @@ def c05(d):
       if np.any(at_max & (m > 0) & ~np.isclose(out, t, rtol=1e-5)):
         i = int(np.argmax(at_max & ~np.isclose(out, t, rtol=1e-5)))
         bad = {"x": float(t.reshape(-1)[i]), "output": float(out.reshape(-1)[i])}
+    if clause == "scale_group" and kw.get("elements_per_scale"):
+      return {"status": "unsupported", "detail": "scale_group with elements_per_scale has no native evaluation"}
     if clause == "scale_group" and not rp.get("frozen"):
       rank = len(shape)
       axes = _group_axes(rank, kw.get("scale_axis")) if rank > 1 else (0,)
